@@ -78,9 +78,12 @@ PROGS = {
     "grow_vs_popn": ({"a": [("Push", 1), ("Push", 2)], "b": [("PopN", 2)], "c": [("Len", 0), ("Len", 0)]}, [2, 1]),
     # pops racing pushes across the growth point
     "push3_vs_pops": ({"a": [("Push", 1), ("Push", 2), ("Push", 3)], "b": [("Pop", 0), ("PopN", 2)]}, [2, 4]),
+    # a polling Pop on a queue that is (nearly) empty against a pusher and a reader of Len: "empty" and Len are decided
+    # under the same lock
+    "pop_empty_vs_len": ({"a": [("Push", 1)], "b": [("Pop", 0), ("Pop", 0)], "c": [("Len", 0), ("Len", 0)]}, [2]),
     "three_threads": ({"a": [("Push", 1), ("Push", 2)], "b": [("Push", 3), ("Pop", 0)], "c": [("PopN", 3), ("Len", 0)]}, [1, 2]),
 }
-CONC = {"quick": ["grow_vs_popn", "push3_vs_pops"], "thorough": ["grow_vs_popn", "push3_vs_pops", "three_threads"]}
+CONC = {"quick": ["grow_vs_popn", "push3_vs_pops", "pop_empty_vs_len"], "thorough": ["grow_vs_popn", "push3_vs_pops", "pop_empty_vs_len", "three_threads"]}
 
 
 def tla_progs(threads):
